@@ -210,6 +210,21 @@ mod sym_impls {
             ZU
         }
     }
+    impl Sym for ZP {
+        fn sym(_b: usize) -> Self {
+            ZP { tag: kani::any(), value: kani::any() }
+        }
+    }
+    impl Sym for ED {
+        fn sym(_b: usize) -> Self {
+            let k: u8 = kani::any();
+            match k {
+                0 => ED::Low,
+                1 => ED::Mid,
+                _ => ED::High,
+            }
+        }
+    }
     impl Sym for D1 {
         fn sym(b: usize) -> Self {
             D1 {
@@ -451,7 +466,7 @@ macro_rules! eps_seq_zero {
         }
     )*};
 }
-eps_seq_zero!(u8, u16, u32, u64, u128, (), Z8, Z32, ZT, (u16, u16), [u16; 2], bool);
+eps_seq_zero!(u8, u16, u32, u64, u128, (), Z8, Z32, ZT, ZP, (u16, u16), [u16; 2], bool);
 
 /// sequences of deep elements: rebuilt with substituted elements
 macro_rules! eps_seq_deep {
@@ -569,6 +584,13 @@ impl<const K: usize> EpsCmp for ZU<K> {
     fn borrows<'a>(d: &&'a ZU<K>, o: &mut Borrows) {
         o.push(*d as *const ZU<K> as usize, 0, 1);
     }
+}
+
+impl EpsCmp for ED {
+    fn eps_eq<'a>(d: &<ED as DeserializeInner>::DeserType<'a>, v: &Self) -> bool {
+        d.keq(v)
+    }
+    fn borrows<'a>(_d: &<ED as DeserializeInner>::DeserType<'a>, _o: &mut Borrows) {}
 }
 
 // derived deep types: field by field
